@@ -188,7 +188,14 @@ func Drive(id, tier string, seed int64, root, exe string) int {
 				}
 			}
 		}
-		viols = append(viols, rep.Violations...)
+		var hung []Violation
+		for _, v := range rep.Violations {
+			if strings.HasPrefix(v.What, "the case did not finish within") {
+				hung = append(hung, v)
+			} else {
+				viols = append(viols, v)
+			}
+		}
 		if hb, err := os.ReadFile(filepath.Join(out, fmt.Sprintf("hashes.%d.bin", s))); err == nil {
 			for i := 0; i+8 <= len(hb); i += 8 {
 				hashes[binary.LittleEndian.Uint64(hb[i:])] = struct{}{}
@@ -203,8 +210,40 @@ func Drive(id, tier string, seed int64, root, exe string) int {
 		// the worker did not finish
 		inflight, has := ReadJournal(filepath.Join(out, fmt.Sprintf("journal.%d", s)))
 		tail := tailFile(filepath.Join(out, fmt.Sprintf("stderr.%d", s)), 1500)
-		if r.exit == 3 {
-			// the worker itself reported a hanging case as a violation and stopped
+		if r.exit == 3 || len(hung) > 0 {
+			// the worker itself reported a case that outlived the per-case wall-clock bound and stopped. The
+			// bound is wall clock, so a stalled or overloaded machine can fire it too: the verdict is taken
+			// from a second run of that case alone in a fresh process under a generous bound (10 minutes for
+			// a case that takes milliseconds). Only a case that does not finish there either is reported as
+			// non-terminating; one that finishes is counted inconclusive (and a violation the second run
+			// reports by itself is kept).
+			for k, hv := range hung {
+				confirmed := p.Replay == nil
+				if p.Replay != nil {
+					cf := filepath.Join(out, fmt.Sprintf("hung.%d.%d.json", s, k))
+					rb, _ := json.Marshal(ReplayFile{Property: id, Tier: tier, Seed: seed, What: hv.What, Case: hv.Case})
+					os.WriteFile(cf, rb, 0o644)
+					ctx, cancel := context.WithTimeout(context.Background(), 10*time.Minute)
+					cmd := exec.CommandContext(ctx, exe, "replay", cf, "-root", root)
+					cmd.Run()
+					timedOut := ctx.Err() != nil
+					cancel()
+					code := -1
+					if cmd.ProcessState != nil {
+						code = cmd.ProcessState.ExitCode()
+					}
+					confirmed = timedOut || code == 1
+					if !confirmed {
+						total.Inconclusive["case_outlived_the_wall_clock_bound_but_finishes_alone"]++
+						total.Notes = append(total.Notes, fmt.Sprintf("shard %d: a case outlived the per-case wall-clock bound but finished (exit %d) when run alone in a fresh process: machine stall, inconclusive; case: %s", s, code, Short(string(hv.Case), 300)))
+					} else if timedOut {
+						hv.What += "; confirmed: the same case alone in a fresh process did not finish within 600 s either"
+					}
+				}
+				if confirmed {
+					viols = append(viols, hv)
+				}
+			}
 			total.Counters["shards_incomplete"]++
 			continue
 		}
